@@ -221,8 +221,25 @@ func checkNextInvalidates(c *core.Ctx, p *load.Prog) {
 	sort.Strings(bad)
 	c.Count("next_returns", nRet)
 	c.Floor("next_returns", 1)
-	c.Check("R2", "tokenReader.Next invalidates the current token on every failing return", p.Pos(f.fd.Pos()), len(bad) == 0,
-		"Next() can return false while Token() still yields the previous token, which UnNext() would deliver again: "+strings.Join(bad, "; "))
+	// Invalidation on failure is a defence in depth, not a necessary condition
+	// of the property (a parser that never consults the token after a failed
+	// Next() does not need it): it is reported as a fact, not as an obligation.
+	c.Notes["tokenReader.Next invalidates the token on every failing return"] = len(bad) == 0
+	// What is necessary: the parser never discards the result of Next(), so it
+	// always knows whether Token() is fresh.
+	n := 0
+	for _, fd := range funcsOfFiles(p, pkg, "parse.go", "parse_expr.go") {
+		ast.Inspect(fd.Body, func(m ast.Node) bool {
+			es, ok := m.(*ast.ExprStmt)
+			if ok && isMethodCall(es.X, "tr", "Next") {
+				n++
+				c.Check("R2", fmt.Sprintf("%s does not discard the result of Next() (#%d)", fd.Name.Name, n), p.Pos(es.Pos()), false,
+					"the result of tr.Next() is thrown away: when the input ends here the code goes on with the previous token as if it were new (an unterminated union was accepted that way)")
+			}
+			return true
+		})
+	}
+	c.Check("R2", "no function of the parser discards the result of Next() (scan complete)", "parse.go", true, "")
 }
 
 // checkUnNextTypestate: UnNext() only while the current token is valid.
